@@ -21,21 +21,23 @@ LEVEL_TEXT = (
     " an abstract source (randint calling an abstract hook) is analysed once per concrete subclass; where the "
     "affine domain cannot express a result (a product of two unknowns) the function is interpreted at a grid of "
     "concrete bounds and gene values (ints and floats, degenerate intervals min == max included), and a result "
-    "outside the bounds is a definite counterexample (none found decides nothing). (R3) choice indexes within "
-    "range for every length (affine), and the derived primitives are interpreted exhaustively on small models "
+    "outside the bounds is a definite counterexample (none found decides nothing); a helper with several "
+    "returning paths is analysed once per combination of its paths. (R3) choice indexes within range for every "
+    "length (affine), and the derived primitives are interpreted exhaustively on small models "
     "(sa/rules/c18model.py: lists of distinct symbols, self.randint taking every value of its range): choice "
     "returns an element for every draw and every element for some draw; shuffle returns its argument as a "
     "permutation, producing each of the n! orders for exactly one draw sequence (n <= 4); pop_random removes "
     "exactly the element it returns, each element for exactly one draw, also from a list holding equal-but-"
-    "distinct objects (removal by position, not by value); choice_weighted, on eight weight vectors with zero "
-    "weights first / last / in the middle and fractional weights whose truncations differ (either consistent "
-    "discretisation is accepted), returns for every draw a comparison can distinguish the option whose cumulative"
-    " interval contains it - never a zero-weight option, leaving the caller's option and weight lists as they "
-    "were - and, when the quantities are identifiable, draws strictly below the total for every total (affine). "
-    "(R4) NativeRandomSource draws only from a private random.Random(seed). (R5) memo-key completeness "
-    "(sa/memo.py) over every method of the random sources and deciders: a table of ranges an implementation has "
-    "seen must be keyed by everything the remembered value depends on (a key 'max - min' does not determine min)."
-    " A containment that fails is reported only with an attainable witness or when it fails on every model."
+    "distinct objects (removal by position, not by value), a store beyond the end of the list raising as in "
+    "Python; choice_weighted, on eight weight vectors with zero weights first / last / in the middle and "
+    "fractional weights whose truncations differ (either consistent discretisation is accepted), returns for "
+    "every draw a comparison can distinguish the option whose cumulative interval contains it - never a zero-"
+    "weight option, leaving the caller's option and weight lists as they were - and, when the quantities are "
+    "identifiable, draws strictly below the total for every total (affine). (R4) NativeRandomSource draws only "
+    "from a private random.Random(seed). (R5) memo-key completeness (sa/memo.py) over every method of the random "
+    "sources and deciders: a table of ranges an implementation has seen must be keyed by everything the "
+    "remembered value depends on (a key 'max - min' does not determine min). A containment that fails is reported"
+    " only with an attainable witness or when it fails on every model."
 )
 
 MAXSIZE = "sys.maxsize"
